@@ -110,6 +110,15 @@ T = {
  "C16-6": ("C16", "d77d3e0", "a local write overlapping the index pass of a replicated batch (or the converse) and a subscriber that queries at once", ["C16"], "VIOLATION (interpreter-schedule) by VerifC16WriteDuringMerge"),
  "C18-7": ("C18", "d77d3e0", "Close of the instance, one Open / Create on it (refused), then another Open or Close", ["C18"], "VIOLATION by VerifSysClose"),
  "C20-6": ("C20", "d77d3e0", "one failed poll of the underlying Peers(), the peer still present at the next successful poll", ["C20"], "VIOLATION (native replay) by VerifC20PollError"),
+ # round 10 (base d77d3e0)
+ "C02-7": ("C02", "d77d3e0", "a restarted replica whose Load (non-empty heads cache) overlaps the Sync of heads written while it was down; the same heads re-sent afterwards", ["C02"], "VIOLATION (interpreter-schedule, P=1) by VerifC02RestartRace"),
+ "C03-6": ("C03", "d77d3e0", "opening an existing address while passing a write list (or a reused parameter value) that differs from the stored one", ["C03"], "VIOLATION (native replay) by VerifC03Instance (opener parameters)"),
+ "C04-6": ("C04", "d77d3e0", "a snapshot file whose non-head frame is a validly signed entry claiming another entry's address, loaded with LoadFromSnapshot", ["C04"], "VIOLATION (native replay) by VerifC04Snapshot"),
+ "C08-6": ("C08", "d77d3e0", "forked two-writer log, lt / lte bound on an entry preceded in the listing by an entry of the other branch", ["C08"], "VIOLATION (native replay) by VerifC08Window"),
+ "C12-7": ("C12", "d77d3e0", "an open whose store constructor fails, then a heads message addressed to that database, then valid traffic", ["C12"], "VIOLATION (deadlock) by VerifSysMalformed (address-of-a-failed-open)"),
+ "C13-6": ("C13", "d77d3e0", "snapshot with two heads loaded into an instance that already holds one of them", ["C13"], "VIOLATION (native replay) by VerifC13Snapshot (partly-held)"),
+ "C15-6": ("C15", "d77d3e0", "Load(n), growth without a load, Load(m) with n <= m < held", ["C15"], "VIOLATION (native replay) by VerifC15Sequence"),
+ "C19-6": ("C19", "d77d3e0", "progress at N on an open store, then Load(k), 0 < k < N", ["C19"], "VIOLATION (native replay) by VerifC19History (loaded-while-open)"),
 }
 for seed, (prop, base, needs, by, note) in T.items():
     d = os.path.join(V, "seeded", seed)
